@@ -87,7 +87,7 @@ namespace Givaro {
 			_BITS( std::numeric_limits< double >::digits/( (e<<1)-1) ),
 			_BASE(1 << _BITS),
 			_MASK( _BASE - 1),
-			_maxn( _BASE/(P-1)/(P-1)/e),
+			_maxn( _MASK/(P-1)/(P-1)/e),
 			_degree( e-1 )
 			// , balanced(false)
 		{
@@ -104,7 +104,7 @@ namespace Givaro {
 			_BITS( std::numeric_limits< double >::digits/( (e<<1)-1) ),
 			_BASE(1 << _BITS),
 			_MASK( _BASE - 1),
-			_maxn( _BASE/(P-1)/(P-1)/e),
+			_maxn( _MASK/(P-1)/(P-1)/e),
 			_degree( e-1 )
 			// , balanced(false)
 		{
